@@ -232,6 +232,11 @@ def _run_structured(desc):
                                           np.r_[np.arange(n), np.arange(2, n, 2), np.arange(2, n, 2)]),
             "ladder": (np.r_[np.arange(0, n - 2), np.arange(0, n - 3, 3)], np.r_[np.arange(2, n), np.arange(3, n, 3)]),
         }
+        # one chain through all nodes with the node numbers and the order of the pairs both scrambled (multiplicative permutations): the
+        # minimum has to travel link by link, hundreds to thousands of sweeps
+        pn = (np.arange(n) * 7919 + 13) % n if np.gcd(7919, n) == 1 else np.arange(n)[::-1]
+        pe = (np.arange(n - 1) * 4447 + 5) % (n - 1) if n > 2 and np.gcd(4447, n - 1) == 1 else np.arange(n - 1)
+        gens["chain_scrambled"] = (pn[:-1][pe], pn[1:][pe])
         for name, (i, j) in gens.items():
             i = i.astype(np.int64); j = j.astype(np.int64)
             n_want, lab_want = oracle(i, j, n)
